@@ -64,6 +64,8 @@ class Tr:
             for c in reversed(cs[:-1]): r = '(%s %s %s)' % (op, c, r)
             return r
         if isinstance(e, ast.UnaryOp) and isinstance(e.op, ast.Not):
+            sv = self.slot(e.operand)
+            if sv and sv[0] == 'v': return '(CFalsy %s)' % sv[1]          # `not value`: truthiness, not `is None`
             return '(CNot %s)' % self.cond(e.operand)
         if isinstance(e, ast.Compare) and len(e.ops) == 1 and isinstance(e.ops[0], (ast.Is, ast.IsNot)):
             neg = isinstance(e.ops[0], ast.IsNot)
@@ -87,6 +89,7 @@ class Tr:
         if p: return '(CPred %s)' % p
         s = self.slot(e)
         if s and s[0] == 'f': return '(CFlag %s)' % s[1]
+        if s and s[0] == 'v': return '(CNot (CFalsy %s))' % s[1]         # `if value:` truthiness
         self.err(e, 'condition outside the subset')
 
     # ---- statements
@@ -249,14 +252,15 @@ def generate():
     F = 'exception_filter'
     f = find_def(tree, '__init__', F)
     names, _ = argnames(f)
-    first = f.body[0]
-    if not (len(names) == 2 and isinstance(first, ast.Assign) and ast.unparse(first.targets[0]) == 'self._should_ignore_ex'
-            and isinstance(first.value, ast.Name) and first.value.id == names[1]):
-        raise GenError('exception_filter.__init__ does not store the predicate first')
-    for s in f.body[1:]:
-        txt = ast.unparse(s)
-        if 'update_wrapper' not in txt or '_should_ignore_ex' in txt.replace('self._should_ignore_ex', ''):
-            raise GenError('exception_filter.__init__: unexpected statement')
+    if len(names) != 2: raise GenError('exception_filter.__init__ signature')
+    body = [x for x in f.body if not (isinstance(x, ast.Expr) and isinstance(x.value, ast.Constant))]
+    want_assign = 'self._should_ignore_ex = %s' % names[1]
+    want_wrap = ('if all((hasattr(%s, a) for a in functools.WRAPPER_ASSIGNMENTS)):\n    functools.update_wrapper(self, %s)' % (names[1], names[1]))
+    got = [ast.unparse(x) for x in body]
+    if got == [want_assign, want_wrap]: order = 'AssignThenWrap'
+    elif got == [want_wrap, want_assign]: order = 'WrapThenAssign'
+    else: raise GenError('exception_filter.__init__: not {store predicate, update_wrapper if it has the wrapper attributes}')
+    out.append('Definition gen_filt_init_order : init_order := %s.' % order)
     f = find_def(tree, '__get__', F)
     names, _ = argnames(f)
     if len(names) != 3: raise GenError('__get__ signature')
